@@ -58,57 +58,43 @@ func sortedKeys(m map[uint64]bool) []uint64 {
 	return ks
 }
 
-// conservation checks one successful execution. pre/post are censuses (nil for scripts).
-func conservation(c *core.Ctx, eng host.Engine, kind, src string, extra map[string]any, h *host.Host, pre, post []audit.Resource) {
-	created := map[uint64]bool{}
+type consFailure struct {
+	Kind string
+	Msg  string
+	IDs  any
+}
+
+// conservationFailures applies the conservation laws to one successful execution.
+func conservationFailures(h *host.Host, pre, post []audit.Resource) (fs []consFailure, created map[uint64]bool, destroyedList []uint64) {
+	created = map[uint64]bool{}
 	for _, u := range h.UUIDs {
 		created[u] = true
 	}
-	destroyedList, malformed := destroyedUUIDs(h.Events)
+	var malformed int
+	destroyedList, malformed = destroyedUUIDs(h.Events)
 	if malformed > 0 {
-		c.Violate(fmt.Sprintf("%s[%s] destruction-event-without-uuid", kind, eng), "a ResourceDestroyed event does not carry the declared uuid field", w(extra, "program", src))
+		fs = append(fs, consFailure{"destruction-event-without-uuid", "a ResourceDestroyed event does not carry the declared uuid field", malformed})
 	}
-	c.Count("created", int64(len(created)))
-	c.Count("destroyed_events", int64(len(destroyedList)))
 	preM, _ := censusSet(pre)
 	postM, dups := censusSet(post)
-	c.Count("census_resources", int64(len(post)))
-	fail := func(key, msg string, ids any) {
-		ww := w(extra, "program", src)
-		ww["engine"] = eng.String()
-		ww["uuids"] = ids
-		ww["created"] = sortedKeys(created)
-		ww["destroyed"] = destroyedList
-		var pc, qc []string
-		for _, r := range pre {
-			pc = append(pc, fmt.Sprintf("%d %s %s", r.UUID, r.TypeID, r.Path))
-		}
-		for _, r := range post {
-			qc = append(qc, fmt.Sprintf("%d %s %s", r.UUID, r.TypeID, r.Path))
-		}
-		ww["pre_census"] = pc
-		ww["post_census"] = qc
-		c.Violate(fmt.Sprintf("%s[%s] %s", kind, eng, key), msg, ww)
-	}
 	if len(dups) > 0 {
-		fail("duplicate-uuid-in-storage", fmt.Sprintf("two live stored resources share uuid(s) %v", dups), dups)
+		fs = append(fs, consFailure{"duplicate-uuid-in-storage", fmt.Sprintf("two live stored resources share uuid(s) %v", dups), dups})
 	}
-	// exactly-once destruction
 	seen := map[uint64]int{}
 	for _, u := range destroyedList {
 		seen[u]++
 	}
-	for u, n := range seen {
+	for _, u := range sortedKeysInt(seen) {
+		n := seen[u]
 		if n > 1 {
-			fail("destroyed-more-than-once", fmt.Sprintf("uuid %d has %d destruction events", u, n), u)
+			fs = append(fs, consFailure{"destroyed-more-than-once", fmt.Sprintf("uuid %d has %d destruction events", u, n), u})
 		}
 		if !created[u] {
 			if _, ok := preM[u]; !ok {
-				fail("destroyed-unknown-resource", fmt.Sprintf("destruction event for uuid %d which was neither created in this execution nor stored before it", u), u)
+				fs = append(fs, consFailure{"destroyed-unknown-resource", fmt.Sprintf("destruction event for uuid %d which was neither created in this execution nor stored before it", u), u})
 			}
 		}
 	}
-	// conservation: (pre ∪ created) \ destroyed == post
 	expect := map[uint64]bool{}
 	for u := range preM {
 		expect[u] = true
@@ -133,10 +119,67 @@ func conservation(c *core.Ctx, eng host.Engine, kind, src string, extra map[stri
 	sort.Slice(lost, func(i, j int) bool { return lost[i] < lost[j] })
 	sort.Slice(extraIDs, func(i, j int) bool { return extraIDs[i] < extraIDs[j] })
 	if len(lost) > 0 {
-		fail("resource-lost", fmt.Sprintf("uuid(s) %v were created or stored, not destroyed, and are in no storage location after a successful execution", lost), lost)
+		fs = append(fs, consFailure{"resource-lost", fmt.Sprintf("uuid(s) %v were created or stored, not destroyed, and are in no storage location after a successful execution", lost), lost})
 	}
 	if len(extraIDs) > 0 {
-		fail("resource-survives-destruction-or-appears", fmt.Sprintf("uuid(s) %v are in storage although destroyed or never created", extraIDs), extraIDs)
+		fs = append(fs, consFailure{"resource-survives-destruction-or-appears", fmt.Sprintf("uuid(s) %v are in storage although destroyed or never created", extraIDs), extraIDs})
+	}
+	return
+}
+
+func sortedKeysInt(m map[uint64]int) []uint64 {
+	var ks []uint64
+	for k := range m {
+		ks = append(ks, k)
+	}
+	sort.Slice(ks, func(i, j int) bool { return ks[i] < ks[j] })
+	return ks
+}
+
+// rerunFunc re-executes a candidate program and returns its host and censuses; ok is false when
+// the execution was not successful.
+type rerunFunc func(cand string) (h *host.Host, pre, post []audit.Resource, ok bool)
+
+// conservation checks one successful execution and reports (minimised) violations.
+func conservation(c *core.Ctx, eng host.Engine, kind, src string, extra map[string]any, h *host.Host, pre, post []audit.Resource, rerun rerunFunc) {
+	fs, created, destroyedList := conservationFailures(h, pre, post)
+	c.Count("created", int64(len(created)))
+	c.Count("destroyed_events", int64(len(destroyedList)))
+	c.Count("census_resources", int64(len(post)))
+	for i, f := range fs {
+		ww := w(extra, "program", src)
+		ww["engine"] = eng.String()
+		ww["uuids"] = f.IDs
+		ww["created"] = sortedKeys(created)
+		ww["destroyed"] = destroyedList
+		var pc, qc []string
+		for _, r := range pre {
+			pc = append(pc, fmt.Sprintf("%d %s %s", r.UUID, r.TypeID, r.Path))
+		}
+		for _, r := range post {
+			qc = append(qc, fmt.Sprintf("%d %s %s", r.UUID, r.TypeID, r.Path))
+		}
+		ww["pre_census"] = pc
+		ww["post_census"] = qc
+		minKey := ""
+		if rerun != nil && i == 0 {
+			min := minimize(src, func(cand string) bool {
+				h2, p2, q2, ok := rerun(cand)
+				if !ok {
+					return false
+				}
+				f2, _, _ := conservationFailures(h2, p2, q2)
+				for _, x := range f2 {
+					if x.Kind == f.Kind {
+						return true
+					}
+				}
+				return false
+			}, 300)
+			ww["minimal_program"] = min
+			minKey = " | min " + skeletonKey(min)
+		}
+		c.Violate(fmt.Sprintf("%s[%s] %s%s", kind, eng, f.Kind, minKey), f.Msg, ww)
 	}
 }
 
@@ -190,7 +233,11 @@ func runC02(c *core.Ctx) {
 					c.Count("feat:"+f, int64(n))
 				}
 			}
-			conservation(c, eng, "script", p.Source, nil, h, nil, nil)
+			conservation(c, eng, "script", p.Source, nil, h, nil, nil, func(cand string) (*host.Host, []audit.Resource, []audit.Resource, bool) {
+				h2 := host.New()
+				o2 := h2.RunScript(eng, cand, nil, nil)
+				return h2, nil, nil, o2.Err == nil && o2.Escaped == nil
+			})
 		}
 	}
 	for _, eng := range host.AllEngines {
@@ -206,6 +253,7 @@ func runC02(c *core.Ctx) {
 				c.Violate("census-failed", "resource census of the ledger failed: "+err.Error(), map[string]any{"contract": s.Contract})
 				break
 			}
+			preLedger, preUUID := h.Ledger.Clone(), h.UUID
 			h.ResetTrace()
 			o := h.RunTx(eng, tx.Source, nil, []common.Address{host.Addr(1)}, nil)
 			c.Eval(1)
@@ -241,7 +289,25 @@ func runC02(c *core.Ctx) {
 			for k := 0; k < i; k++ {
 				prior = append(prior, s.Txs[k].Source)
 			}
-			conservation(c, eng, "transaction", tx.Source, map[string]any{"contract": s.Contract, "prior_transactions": prior}, h, pre, post)
+			codes := h.Codes
+			conservation(c, eng, "transaction", tx.Source, map[string]any{"contract": s.Contract, "prior_transactions": prior}, h, pre, post,
+				func(cand string) (*host.Host, []audit.Resource, []audit.Resource, bool) {
+					h2 := host.New()
+					h2.Ledger = preLedger.Clone()
+					for k, v := range codes {
+						h2.Codes[k] = v
+					}
+					h2.UUID = preUUID
+					o2 := h2.RunTx(eng, cand, nil, []common.Address{host.Addr(1)}, nil)
+					if o2.Err != nil || o2.Escaped != nil {
+						return h2, nil, nil, false
+					}
+					q2, err := audit.Census(h2.Ledger)
+					if err != nil {
+						return h2, nil, nil, false
+					}
+					return h2, pre, q2, true
+				})
 			if i == 0 && eng == host.EngI && c.WantSample() {
 				c.Sample(map[string]any{"transaction": tx.Source, "created": h.UUIDs, "stored_after": len(post)})
 			}
